@@ -48,7 +48,7 @@ type am struct {
 
 // reqCtx = what the HTTP handler (app/broker/api/ingest/write.go) derives from the request.
 type reqCtx struct {
-	NS       string // never empty: the handler substitutes "default-ns"
+	NS       string // the handler substitutes "default-ns" for none; "" only for protobuf requests parsed without a request-level namespace
 	Enriched []kv   // non-empty keys/values within the length limits (handler checks)
 	Limits   *models.Limits
 }
@@ -263,7 +263,11 @@ func expect(m *am, rc *reqCtx, f format) (*canon, string) {
 
 	// namespace: proto - "replace namespace with enriched" (the request's wins);
 	// flat - "if row namespace is empty, use request's namespace"; influx has none of its own.
+	// A protobuf request without request-level namespace: every metric keeps its own (possibly none).
 	ns := rc.NS
+	if f == fProto && rc.NS == "" {
+		ns = m.NS
+	}
 	if (f == fFlatClient || f == fFlatRaw) && m.NS != "" {
 		ns = m.NS
 		if lim(l.MaxNamespaceLength, len(ns)) {
